@@ -87,7 +87,7 @@ def cases(ctx):
     g3 = []
     for j in range(40 if ctx.quick else 600):
         r = ctx.rng("C11g3", j)
-        c = gen.rand_circuit(r, n_in=r.randint(1, 5), n_gates=r.randint(2, 9), max_fanin=3, consts=0.2, extra_out=0.4, out_is_input=0.2)
+        c = gen.rand_circuit(r, n_in=r.randint(1, 5), n_gates=r.randint(2, 9), max_fanin=3, consts=0.2, extra_out=0.4, out_is_input=0.2, loaded_in_out=0.15)
         g3.append(proj(c))
     fams.append(("G3", g3))
     for src, fam in fams:
@@ -100,6 +100,8 @@ def cases(ctx):
             else:
                 sel = r.sample(nodes, min(len(nodes), 3 if ctx.quick else 6))
             outs = [n for n, o in zip(names, p["out"]) if o]
+            if len(sel) >= 2:
+                yield {"op": "sens_list", "c": p, "nodes": [names[i] for i in sel if p["ty"][i] not in ("0", "1")], "src": src}
             for i in sel:
                 if p["ty"][i] in ("0", "1"):
                     continue
@@ -126,6 +128,25 @@ def run_case(case, ctx):
 
     p = case["c"]
     c = build(p)
+    if case["op"] == "sens_list":
+        # list argument: one result per node, each judged like the single-node call
+        ns = [n for n in case["nodes"] if has_startpoint(c, n)]
+        big = sum(1 for t in p["ty"] if t == "input") > 5
+        if len(ns) < 2 or (ctx.quick and big):
+            return []
+        evs = []
+        try:
+            infl = cg.props.influence(c, ns, approx=False)
+            avg = cg.props.avg_sensitivity(c, ns, approx=False)
+            for n in ns:
+                evs.append({"kind": "sensitivity_props", "c": p, "node": n, "exc": "", "sens": int(cg.props.sensitivity(c, n)),
+                            "infl": sorted([k] + [int(x) for x in float(v).as_integer_ratio()] for k, v in infl[n].items()),
+                            "avg_num": int(float(avg[n]).as_integer_ratio()[0]), "avg_den": int(float(avg[n]).as_integer_ratio()[1]),
+                            "nontrivial": True})
+        except Exception as e:
+            evs.append({"kind": "sensitivity_props", "c": p, "node": ns[0], "exc": type(e).__name__, "sens": -1, "infl": [],
+                        "avg_num": 0, "avg_den": 1, "nontrivial": True})
+        return evs
     n = case["node"]
     if not has_startpoint(c, n):
         return []
